@@ -95,6 +95,16 @@ TARGETS = [
                                         ('encoding', 'decoder')], ('tuple', ('dict', 'str', 'pyval'), 'int'), True),
                  '_get_bitmap_list': ([('binary_bitmap', 'bytes')], ('list', 'bool'), False)},
       'lean_name': '_iso8583_to_dict_loop'}),
+    # the ELEMENT LOOP and the ASSEMBLY of _dict_to_iso8583 (the function without the PDS packing statements: the message
+    # is the one that packing leaves), with `_field_to_iso8583` as a parameter (ANY function of its type); message values
+    # are of any type (`Rt.AnyVal`), `message.get(k)` is an Option
+    ('cardutil/iso8583.py', '_dict_to_iso8583', {}, 'bytes',
+     {'fragment': ('without', 'de_pds_fields', 'bit'),
+      'params': [('message', ('dict', 'str', 'anyval')), ('bit_config', ('dict', 'str', 'cfg')), ('encoding', 'codec'),
+                 ('hex_bitmap', 'bool')],
+      'extern': {'_field_to_iso8583': ([('bit_config', 'cfg'), ('field_value', ('opt', 'anyval')), ('encoding', 'codec')],
+                                       'bytes', True)},
+      'lean_name': '_dict_to_iso8583_loop'}),
     # FRAGMENTS of functions whose other statements call the cipher library: the decimalisation at the end of
     # calculate_pvv (from the first assignment to values_pass1, with the ciphertext `ct` as parameter), and the
     # combination loop at the start of get_zone_master_key (up to the assignment to binary_key, returning p1)
@@ -152,6 +162,10 @@ def lean_type(t):
         return 'Rt.InfoVal'
     if t in ('infile', 'bitarray'):
         return 'Bytes'
+    if t == 'anyval':
+        return 'Rt.AnyVal'
+    if isinstance(t, tuple) and t[0] == 'opt':
+        return f'(Option {lean_type(t[1])})'
     if isinstance(t, tuple) and t[0] == 'list':
         return f'(List {lean_type(t[1])})'
     if isinstance(t, tuple) and t[0] == 'tuple':
@@ -285,11 +299,31 @@ class Translator:
             return self.expr(ast.Constant(v), env)
         if isinstance(node, ast.IfExp):
             c = self.cond(node.test, env)
-            a, ta = self.expr(node.body, env)
-            b, tb = self.expr(node.orelse, env)
+
+            def branch(n):
+                saved, self.pending = self.pending, []
+                try:
+                    code, t = self.expr(n, env)
+                    binds = self.pending
+                finally:
+                    self.pending = saved
+                return code, t, binds
+            a, ta, ba = branch(node.body)
+            b, tb, bb = branch(node.orelse)
+            if {ta, tb} == {'bytes', 'asciibytes'}:
+                ta = tb = 'bytes'
             if ta != tb:
                 raise Untranslatable('conditional expression with two types')
-            return f'(if {c} then {a} else {b})', ta
+            if not ba and not bb:
+                return f'(if {c} then {a} else {b})', ta
+
+            # a partial operation inside a branch is evaluated only when that branch is taken
+            def wrapb(code, binds):
+                code = f'(Outcome.ok {code})'
+                for v, cc in reversed(binds):
+                    code = f'(Outcome.bind {cc} (fun {v} => {code}))'
+                return code
+            return self.hoist(f'(if {c} then {wrapb(a, ba)} else {wrapb(b, bb)})', ta)
         if isinstance(node, ast.Tuple) and len(node.elts) == 2:
             a, ta = self.expr(node.elts[0], env)
             b, tb = self.expr(node.elts[1], env)
@@ -392,6 +426,8 @@ class Translator:
                     return f'({self.coerce(lc, lt, want)} ++ {self.coerce(rc, rt, want)})', want
             if is_seq(lt) and lt == rt:
                 return f'({lc} ++ {rc})', lt
+            if {lt, rt} == {'bytes', 'asciibytes'}:
+                return f'({lc} ++ {rc})', 'bytes'
             if {lt, rt} == {('list', 'char'), ('list', 'str')}:
                 # lists of one-character strings and of strings: the same thing in Python
                 up = lambda c, t: f'(List.map (fun (ch : Nat) => [ch]) {c})' if t == ('list', 'char') else c  # noqa: E731
@@ -409,6 +445,8 @@ class Translator:
             if rt in ('str', 'bytes', 'char', 'byte') and lt == 'int':
                 want = 'str' if rt in ('str', 'char') else 'bytes'
                 return f'(Rt.mulSeq {self.coerce(rc, rt, want)} {lc})', want
+            if isinstance(lt, tuple) and lt[0] == 'list' and rt == 'int':
+                return f'(Rt.mulSeq {lc} {rc})', lt
         if isinstance(op, ast.Pow) and lt == 'int' and rt == 'int' and (self.const_int(node.left) or 0) > 0:
             # a positive literal raised to a (non-negative) int
             return f'({lc} ^ ({rc}).toNat)', 'int'
@@ -426,8 +464,21 @@ class Translator:
 
     def cond(self, node, env):
         """a Python condition as a Lean Bool"""
+        if isinstance(node, ast.Compare) and len(node.ops) == 1 and isinstance(node.ops[0], ast.Eq) \
+                and isinstance(node.comparators[0], ast.Constant) and node.comparators[0].value == 0 \
+                and not isinstance(node.comparators[0].value, bool):
+            lc, lt = self.expr(node.left, env)
+            if lt == ('opt', 'anyval'):
+                return f'(Rt.eqZeroOpt {lc})'            # x == 0 for a value of any type (None included)
         if isinstance(node, ast.BoolOp):
-            parts = [self.cond(v, env) for v in node.values]
+            parts = [self.cond(node.values[0], env)]
+            for v in node.values[1:]:
+                # the later operands are evaluated only if the earlier ones do not decide: a partial operation in one of
+                # them could not be hoisted in front of the whole test
+                n0 = len(self.pending)
+                parts.append(self.cond(v, env))
+                if len(self.pending) != n0:
+                    raise Untranslatable('partial operation in a short-circuited operand')
             return '(' + (' && ' if isinstance(node.op, ast.And) else ' || ').join(parts) + ')'
         if isinstance(node, ast.UnaryOp) and isinstance(node.op, ast.Not):
             return f'(!{self.cond(node.operand, env)})'
@@ -482,6 +533,9 @@ class Translator:
         if isinstance(node, ast.Call) and isinstance(node.func, ast.Attribute) and node.func.attr == 'get' \
                 and len(node.args) == 1 and not node.keywords:
             dc, dt = self.expr(node.func.value, env)
+            if is_dict(dt) and dt[2] == 'anyval':
+                c, _ = self.expr(node, env)
+                return f'(Rt.truthyOpt {c})'
             if is_dict(dt) and dt[2] == 'cfg':
                 # `if config.get(key)`: a configuration entry is a non-empty mapping, so the test is "the key is there"
                 kc, kt = self.expr(node.args[0], env)
@@ -549,6 +603,20 @@ class Translator:
 
     def call(self, node, env):
         f = node.func
+        if isinstance(f, ast.Attribute) and f.attr == 'get' and len(node.args) == 1 and not node.keywords:
+            dc, dt = self.expr(f.value, env)
+            if is_dict(dt) and dt[2] == 'anyval':
+                kc, kt = self.expr(node.args[0], env)
+                return f'(Rt.dictGetOpt {dc} {self.coerce(kc, kt, "str")})', ('opt', 'anyval')
+        if isinstance(f, ast.Attribute) and f.attr == 'encode' and len(node.args) == 1 and not node.keywords \
+                and isinstance(node.args[0], ast.Name) and env.get(node.args[0].id, (None, None))[1] == 'codec':
+            vc, vt = self.expr(f.value, env)
+            if vt == 'anyval':
+                # v.encode(encoding) for a value of any type: only str has the method
+                return self.hoist(f'(Rt.anyEncode {env[node.args[0].id][0]} {vc})', 'bytes')
+        if isinstance(f, ast.Attribute) and f.attr == 'tobytes' and not node.args and not node.keywords \
+                and isinstance(f.value, ast.Name) and env.get(f.value.id, (None, None))[1] == 'bitarray':
+            return env[f.value.id][0], 'bytes'
         if isinstance(f, ast.Attribute) and f.attr == 'get' and len(node.args) in (1, 2) and not node.keywords \
                 and isinstance(f.value, ast.Name) and env.get(f.value.id, (None, None))[1] == 'cfg':
             return self.cfg_field(env[f.value.id][0], node.args[0], node.args[1] if len(node.args) == 2 else None)
@@ -605,9 +673,15 @@ class Translator:
             return self.hoist(f'({env[node.args[0].id][0]} {c})', 'str')
         if isinstance(f, ast.Name) and f.id in getattr(self, 'extern', {}):
             ptypes, rtype, partial = self.extern[f.id]
-            if len(node.args) != len(ptypes) or node.keywords:
+            actual = list(node.args)
+            for pn, _ in ptypes[len(actual):]:
+                kw = [k for k in node.keywords if k.arg == pn]
+                if len(kw) != 1:
+                    raise Untranslatable(f'call of the external function {f.id} with unexpected arguments')
+                actual.append(kw[0].value)
+            if len(actual) != len(ptypes) or len(node.keywords) != len(actual) - len(node.args):
                 raise Untranslatable(f'call of the external function {f.id} with unexpected arguments')
-            codes = [self.coerce(*self.expr(a, env), pt) for a, (_, pt) in zip(node.args, ptypes)]
+            codes = [self.coerce(*self.expr(a, env), pt) for a, (_, pt) in zip(actual, ptypes)]
             code = f'(ext{f.id} ' + ' '.join(codes) + ')'
             return self.hoist(code, rtype) if partial else (code, rtype)
         if isinstance(f, ast.Attribute) and len(node.keywords) == 1 and node.keywords[0].arg == 'byteorder' \
@@ -995,6 +1069,16 @@ class Translator:
 
             def go():
                 dc, dt = self.expr(ast.Name(dname), env)
+                if isinstance(dt, tuple) and dt[0] == 'list':
+                    # l[i] = v : IndexError outside the list
+                    ic, it = self.expr(s.targets[0].slice, env)
+                    vc, vt = self.expr(s.value, env)
+                    if it != 'int' or vt != dt[1]:
+                        raise Untranslatable('list item assignment with unexpected types')
+                    if not self.monadic:
+                        raise NeedMonad()
+                    return (f'Outcome.bind (Rt.setItem {dc} {ic} {vc}) (fun {dname} =>\n  '
+                            + self.stmts(rest, env, ret, loop) + ')')
                 if not is_dict(dt):
                     raise Untranslatable('item assignment on a non-dict')
                 kc, kt = self.expr(s.targets[0].slice, env)
@@ -1040,6 +1124,23 @@ class Translator:
             env2 = dict(env)
             env2[s.targets[0].id] = (s.targets[0].id, 'bitarray')
             return f'let {s.targets[0].id} : Bytes := [];\n  ' + self.stmts(rest, env2, ret, loop)
+        if isinstance(s, ast.Expr) and isinstance(s.value, ast.Call) and isinstance(s.value.func, ast.Attribute) \
+                and s.value.func.attr == 'fromlist' and isinstance(s.value.func.value, ast.Name) \
+                and env.get(s.value.func.value.id, (None, None))[1] == 'bitarray' and len(s.value.args) == 1:
+            name = s.value.func.value.id
+
+            def go_fl():
+                fn = ALL_KNOWN.get('BitArray.fromlist')
+                if fn is None:
+                    raise Untranslatable('BitArray.fromlist is not translated')
+                c, t = self.expr(s.value.args[0], env)
+                if t != ('list', 'bool'):
+                    raise Untranslatable('fromlist of something that is not a list of flags')
+                if not self.monadic:
+                    raise NeedMonad()
+                return (f'Outcome.bind ({fn.name} {env[name][0]} {c}) (fun {name} =>\n  '
+                        + self.stmts(rest, env, ret, loop) + ')')
+            return self.wrap(go_fl)
         if isinstance(s, ast.Expr) and isinstance(s.value, ast.Call) and isinstance(s.value.func, ast.Attribute) \
                 and s.value.func.attr == 'frombytes' and isinstance(s.value.func.value, ast.Name) \
                 and env.get(s.value.func.value.id, (None, None))[1] == 'bitarray' and len(s.value.args) == 1:
@@ -1339,6 +1440,14 @@ def fragment_of(body, spec):
         raise Untranslatable(f'no assignment to {spec[1]} to cut the fragment at')
     if spec[0] == 'from':
         return body[idx[0]:]
+    if spec[0] == 'without':
+        # ('without', name, loopvar): the function WITHOUT the statements from the first assignment to `name` up to (not
+        # including) the `for loopvar in ...` statement
+        j = [i for i, st in enumerate(body) if isinstance(st, ast.For) and isinstance(st.target, ast.Name)
+             and st.target.id == spec[2] and i > idx[0]]
+        if not j:
+            raise Untranslatable(f'no loop over {spec[2]} to resume the fragment at')
+        return body[:idx[0]] + body[j[0]:]
     return body[:idx[0]] + [ast.Return(value=ast.parse(spec[2], mode='eval').body)]
 
 
